@@ -1131,6 +1131,91 @@ def _parse_struct(text, name):
     return fields
 
 
+def r6_version(program, rep):
+    """The software version reported by a chip, by cases on the encoding:
+    what the three numbers and the label are read from."""
+    fn = program.get("rig.machine_control.common:"
+                     "unpack_sver_response_version")
+    inst = qual(fn)
+    T = Terms(fn)
+    PKT = ("param", formals(fn)[0])
+    FIELD = ("binop", "RShift", ("attr", PKT, "arg2"), ("const", 16))
+    TEXT = ("call", ("attr", ("attr", PKT, "data"), "decode"),
+            (("const", "utf-8"),), ())
+    Z = ("const", "\0")
+
+    def rstrip(t):
+        return ("call", ("attr", t, "rstrip"), (Z,), ())
+    rets = [r for r in returns_of(fn) if r.value is not None]
+    got = {}
+    for pol in (True, False):
+        H = T.under((mk_cmp("Eq", FIELD, ("const", 0xFFFF)), pol))
+        vals = [plain(H.term(r.value, T.cfg.node_of(r))) for r in rets
+                if H.live(T.cfg.node_of(r))]
+        if len(vals) != 1 or vals[0][0] != "tuple" or len(vals[0]) != 4:
+            raise AnalysisError("unpack_sver_response_version: return shape")
+        got[pol] = vals[0]
+    name, ver, lab = got[False][1:]
+    okl = name == rstrip(TEXT) and lab == ("const", "") and ver == (
+        "tuple", ("binop", "FloorDiv", FIELD, ("const", 100)),
+        ("binop", "Mod", FIELD, ("const", 100)), ("const", 0))
+    rep.check(okl, "C14-R6", inst, "legacy encoding: version = (field // "
+              "100, field % 100, 0) of arg2's top half, no label",
+              construct="legacy version", node=fn)
+    name, ver, lab = got[True][1:]
+    PART = ("call", ("attr", TEXT, "partition"), (Z,), ())
+    M = ("call", ("attr", ("global", "VERSION_NUMBER_REGEX"), "match"),
+         (rstrip(("comp", PART, 2)),), ())
+
+    def grp(k):
+        return ("call", ("attr", M, "group"), (("const", k),), ())
+    matches = [st_ for st_ in subterms(("tuple", ver, lab))
+               if st_[0] == "call" and st_[1][0] == "attr" and
+               st_[1][2] == "match" and
+               st_[1][1] == ("global", "VERSION_NUMBER_REGEX")]
+    if not matches:
+        # (a merged label hides the match: look through the alternatives)
+        matches = [st_ for a_ in alternatives(T.under((mk_cmp(
+            "Eq", FIELD, ("const", 0xFFFF)), True)).term(
+                rets[-1].value, T.cfg.node_of(rets[-1])))
+            for st_ in subterms(plain(a_))
+            if st_[0] == "call" and st_[1][0] == "attr" and
+            st_[1][2] == "match"]
+    if not matches:
+        raise AnalysisError("unpack_sver_response_version: where the "
+                            "version text is matched was not found")
+    oks = name in (rstrip(("comp", PART, 0)), ("comp", PART, 0)) and \
+        all(m_ == M for m_ in matches)
+    rep.check(oks, "C14-R6", inst, "semantic-version encoding: the text "
+              "after the name's NUL, with trailing NULs (only) removed, is "
+              "matched as major.minor.patch[label]",
+              construct="semantic version", node=fn,
+              fail="the version text is not (data after the first NUL)."
+                   "rstrip(NUL) matched by VERSION_NUMBER_REGEX with the "
+                   "numbers from groups 1-3 and the label from group 4: a "
+                   "version that is not NUL-terminated (or padded) is "
+                   "reported wrongly")
+    import re as _re
+    # the regular expression itself
+    src = None
+    for st in fn._module.tree.body:
+        if isinstance(st, ast.Assign) and chain(st.targets[0]) == \
+                "VERSION_NUMBER_REGEX" and isinstance(st.value, ast.Call) \
+                and st.value.args and isinstance(st.value.args[0],
+                                                 ast.Constant):
+            src = st.value.args[0].value
+    okre = False
+    if isinstance(src, str):
+        rx = _re.compile(src)
+        okre = all(bool(rx.match(s_)) == w_ for s_, w_ in (
+            ("1.2.3", True), ("10.20.30-dev", True), ("1.2", False),
+            ("1.2.3.4", True), ("a.b.c", False), ("", False))) and \
+            rx.match("12.34.56-x").groups() == ("12", "34", "56", "-x")
+    rep.check(okre, "C14-R6", inst, "VERSION_NUMBER_REGEX captures major, "
+              "minor, patch and the rest", construct="version regex",
+              node=fn)
+
+
 def r6_status(program, folder, rep):
     text = program.read_data("rig/boot/sark.struct").decode("latin-1")
     vcpu = _parse_struct(text, "vcpu")
@@ -1241,6 +1326,7 @@ def check(program, rep):
     rep.guard("C14-R4", r4_machine, program, rep)
     rep.guard("C14-R5", r5_reservations, program, rep)
     rep.guard("C14-R6", r6_status, program, folder, rep)
+    rep.guard("C14-R6", r6_version, program, rep)
     return finish(rep, program, EXPLANATION, NOT_DECIDED,
                   trusted=["SC&MP cmd_info arg1 layout INFO_ARG1 in "
                            "rules/C14.py", "the checker's parser of "
